@@ -33,7 +33,7 @@ FAIL_MSGS = (
     "decreases not satisfied", "loop ensures not satisfied", "loop invariant not satisfied",
     "could not prove termination", "possible bit shift underflow/overflow", "unreachable",
     "failed to prove", "assertion not satisfied", "type invariant not satisfied",
-    "cannot show invariant holds", "not satisfied",
+    "cannot show invariant holds", "not satisfied", "unable to prove",
 )
 RLIMIT_MSGS = ("Resource limit", "rlimit", "resource limit")
 
